@@ -51,6 +51,55 @@ ASSUMPTIONS = [
 HARNESS_TIMEOUT = {"quick": 900, "thorough": 3000}
 
 
+LOOP_PIN = os.path.join(gv.ROOT, "checks", "c12_loop_headers.json")
+
+
+def parser_loop_headers(repo):
+    """The while/loop statements of the five parsers (outside their test modules) as 'fn name: header'."""
+    import re
+    out = {}
+    for lang in ["gql", "cypher", "sparql", "gremlin", "graphql"]:
+        path = os.path.join(repo, "crates", "grafeo-adapters", "src", "query", lang, "parser.rs")
+        src = open(path, encoding="utf-8").read().split("#[cfg(test)]")[0]
+        fn = "?"
+        hs = []
+        for line in src.split("\n"):
+            m = re.match(r"^\s*(?:pub(?:\([a-z]+\))?\s+)?fn\s+(\w+)", line)
+            if m:
+                fn = m.group(1)
+                if fn.endswith("_inner"):      # a wrapper/worker split of a function keeps its loops
+                    fn = fn[:-len("_inner")]
+            if re.match(r"^\s*(while|loop)\b", line):
+                hs.append("%s: %s" % (fn, " ".join(line.split())))
+        out[lang] = sorted(hs)
+    return out
+
+
+def _loop_pin(chk):
+    """coq/Lex/Progress.v was transcribed from the parsers by reading.  The loop statements it was transcribed
+    from are pinned in checks/c12_loop_headers.json; when a parser gains, loses or changes a loop the tables no
+    longer describe the code and the loop-progress theorems say nothing about it: reported as a broken
+    correspondence (re-transcribe the loop, extend Progress.v, regenerate the pin file)."""
+    repo = os.environ.get("GV_REPO_DIR", "/repo")
+    try:
+        now = parser_loop_headers(repo)
+        pinned = json.load(open(LOOP_PIN))
+    except (OSError, ValueError) as e:
+        return ["loop pin: cannot read the parsers or the pin file: %s" % e]
+    diffs = []
+    for lang in pinned:
+        a, b = list(pinned[lang]), list(now.get(lang, []))
+        for h in a:
+            if h in b:
+                b.remove(h)
+            else:
+                diffs.append("%s parser: transcribed loop no longer in the code: %s" % (lang, h))
+        for h in b:
+            diffs.append("%s parser: loop not transcribed in coq/Lex/Progress.v: %s" % (lang, h))
+    chk.coverage["parser_loops_pinned"] = sum(len(v) for v in pinned.values())
+    return diffs
+
+
 def _nest_table(cases):
     rows = []
     for c in cases:
@@ -127,13 +176,20 @@ def run(tier, seed):
     if cases is None:
         return chk.finish(proof)
     _flow(chk, cases, proof)
+    loop_diffs = _loop_pin(chk)
+    if loop_diffs and not chk.violations:
+        chk.violation("loops", {"what": "the parser loops that coq/Lex/Progress.v transcribes have changed; the loop-progress theorems no longer "
+                                        "describe the code and no failing input was found by the search",
+                                "broken": loop_diffs[:20]}, no_input=True)
+    elif loop_diffs:
+        chk.notes.append("parser loops changed: " + "; ".join(loop_diffs[:5]))
     chk.coverage["rule"] = (
         "lexer cases: every seed query of the five languages, witnesses, a character of every UTF-8 width (and NBSP, U+0001) inserted at "
         "every position of rotating seeds, every prefix, then token-/character-/byte-level mutations — each compared token by token with the "
         "model; arithmetic: boundary pairs (i64::MIN/MAX, 0, -1, sqrt(2^63)) x 5 operators directly and through Cypher queries over stored "
         "properties and parameters, random expressions of depth <= 3, list/string index and slice with indexes around 0, +-len, i64::MIN/MAX; "
         "search: corpus of finding witnesses, every seed with/without parameters, every prefix of every seed, odd characters at every "
-        "position, 40k (quick) / 400k (thorough) mutated strings, 1/3 with parameter maps, through 4 stages (parse, translate, execute on "
+        "position, 40k (quick) / 200k (thorough) mutated strings, 1/3 with parameter maps, through 4 stages (parse, translate, execute on "
         "empty, execute on populated db); nesting: 32 constructs, depth 128 (4000 for operator chains) always, then doubling + bisection. "
         "A case is non-trivial when it has >= 4 (lexer) / >= 8 (search) characters or a boundary operand; distinct = distinct (kind, input)")
     samples = []
